@@ -1007,48 +1007,48 @@ pub fn schedule(prop: Prop, tier: Tier) -> Vec<(&'static str, u64)> {
             ("all2", 16),
             ("all3", 512),
             ("all4", if q { 0 } else { 65_536 }),
-            ("er", if q { 1_500 } else { 40_000 }),
-            ("union", if q { 900 } else { 25_000 }),
-            ("lattice", if q { 500 } else { 10_000 }),
-            ("dense", if q { 300 } else { 6_000 }),
-            ("dup", if q { 300 } else { 6_000 }),
-            ("big-union", if q { 60 } else { 1_500 }),
-            ("big-conn", if q { 60 } else { 1_500 }),
-            ("closed-form", if q { 30 } else { 600 }),
+            ("er", if q { 6_000 } else { 80_000 }),
+            ("union", if q { 4_000 } else { 50_000 }),
+            ("lattice", if q { 2_000 } else { 25_000 }),
+            ("dense", if q { 1_200 } else { 15_000 }),
+            ("dup", if q { 1_200 } else { 15_000 }),
+            ("big-union", if q { 200 } else { 3_000 }),
+            ("big-conn", if q { 200 } else { 3_000 }),
+            ("closed-form", if q { 100 } else { 1_200 }),
         ],
         Prop::C02 | Prop::C03 => vec![
             ("empty", 0),
             ("all2", 16),
             ("all3", 512),
             ("all4", if q { 0 } else { 65_536 }),
-            ("er", if q { 700 } else { 30_000 }),
-            ("union", if q { 500 } else { 20_000 }),
-            ("lattice", if q { 300 } else { 8_000 }),
-            ("dense", if q { 150 } else { 5_000 }),
-            ("dup", if q { 150 } else { 5_000 }),
-            ("big-union", if q { 40 } else { 1_200 }),
-            ("big-conn", if q { 40 } else { 1_200 }),
-            ("closed-form", if q { 20 } else { 500 }),
+            ("er", if q { 3_000 } else { 60_000 }),
+            ("union", if q { 2_000 } else { 40_000 }),
+            ("lattice", if q { 1_200 } else { 20_000 }),
+            ("dense", if q { 600 } else { 10_000 }),
+            ("dup", if q { 600 } else { 10_000 }),
+            ("big-union", if q { 150 } else { 2_500 }),
+            ("big-conn", if q { 150 } else { 2_500 }),
+            ("closed-form", if q { 60 } else { 1_000 }),
         ],
         Prop::C04 => vec![
             ("all2", 16),
             ("all3", 512),
             ("all4", if q { 0 } else { 20_000 }),
-            ("er", if q { 300 } else { 15_000 }),
-            ("union", if q { 700 } else { 30_000 }),
-            ("lattice", if q { 200 } else { 6_000 }),
-            ("dense", if q { 100 } else { 3_000 }),
-            ("dup", if q { 100 } else { 3_000 }),
-            ("big-union", if q { 50 } else { 1_500 }),
-            ("big-conn", if q { 30 } else { 1_000 }),
+            ("er", if q { 1_200 } else { 30_000 }),
+            ("union", if q { 3_000 } else { 60_000 }),
+            ("lattice", if q { 800 } else { 15_000 }),
+            ("dense", if q { 400 } else { 8_000 }),
+            ("dup", if q { 400 } else { 8_000 }),
+            ("big-union", if q { 150 } else { 3_000 }),
+            ("big-conn", if q { 100 } else { 2_000 }),
         ],
         Prop::C07 => vec![
             ("all2", 16),
             ("all3", 512),
-            ("er-small", if q { 400 } else { 12_000 }),
-            ("union", if q { 500 } else { 15_000 }),
-            ("lattice", if q { 150 } else { 4_000 }),
-            ("dup", if q { 60 } else { 2_000 }),
+            ("er-small", if q { 1_600 } else { 30_000 }),
+            ("union", if q { 2_000 } else { 40_000 }),
+            ("lattice", if q { 600 } else { 12_000 }),
+            ("dup", if q { 240 } else { 5_000 }),
         ],
     }
 }
